@@ -133,6 +133,7 @@ type c11Req struct {
 	// mode pipe, Proxy variants 6/7 (resilience observable): the scripted backend fails
 	// the first FailN attempts made for THIS request: "conn" connection error, "code"
 	// status 503, "slow" answers after 2 h of virtual time (a pool timeout of 1 h fires)
+	KA       bool   `json:"ka,omitempty"` // mode rt: no "Connection: close"; the client keeps the connection for its next request (if that comes from the same IP)
 	FailN    int    `json:"fail_n,omitempty"`
 	FailKind string `json:"fail_kind,omitempty"`
 }
@@ -192,6 +193,7 @@ type c11Srv struct {
 	IPF       *c11IPF   `json:"ipf,omitempty"`
 	Rules     []c11Rule `json:"rules"`
 	Edits     []string  `json:"edits,omitempty"` // how this generation was derived from the previous one (documentation only)
+	MaxConn   int       `json:"max_conn,omitempty"` // mode rt: maxConnections (0: default), a hot field
 	KA        int       `json:"ka_s,omitempty"`  // mode rt: keepAliveTimeout in seconds (0: default); a change makes the runtime restart its net/http server
 }
 
@@ -313,7 +315,7 @@ func c11EditSrv(rng *sim.Rand, prev *c11Srv, nb *int) c11Srv {
 			s.XFF = !s.XFF
 			s.Edits = append(s.Edits, "xff")
 		case 1:
-			s.MaxBody = int64(rng.Pick(0, 4, 20, 100))
+			s.MaxBody = int64(rng.Pick(0, 4, 20, 100, -1))
 			s.Edits = append(s.Edits, "server-max-body")
 		case 2:
 			if p := anyPath(); p != nil {
@@ -450,7 +452,7 @@ func c11GenMux(rng *sim.Rand) *c11MuxSc {
 	pHdr := []float64{0, 0.3}[rng.Intn(2)]
 	nb := 0
 	backend := func() string { nb++; return fmt.Sprintf("b%d", nb) }
-	g0 := c11Srv{CacheSize: rng.Pick(0, 0, 1, 2, 16, 16), XFF: rng.Bool(0.4), MaxBody: int64(rng.Pick(0, 0, 20, 100))}
+	g0 := c11Srv{CacheSize: rng.Pick(0, 0, 1, 2, 16, 16), XFF: rng.Bool(0.4), MaxBody: int64(rng.Pick(0, 0, 20, 100, -1))}
 	if rng.Bool(pIPF) {
 		g0.IPF = c11GenIPF(rng)
 	}
@@ -509,6 +511,9 @@ func c11SrvText(name string, s *c11Srv) string {
 		"cacheSize": s.CacheSize, "xForwardedFor": s.XFF}
 	if s.MaxBody != 0 {
 		m["clientMaxBodySize"] = s.MaxBody
+	}
+	if s.MaxConn > 0 {
+		m["maxConnections"] = s.MaxConn
 	}
 	if s.KA > 0 {
 		m["keepAliveTimeout"] = fmt.Sprintf("%ds", s.KA)
@@ -1051,11 +1056,12 @@ func TestVerifC11(t *testing.T) {
 		Exec:          c11Exec,
 		MaxSteps:      40000,
 		DeadlockClass: "C11.deadlock",
-		Rule: "a scenario is one of four modes (mux 35%, pipe 35%, tc 15%, rt 15%; rt = the mux scenario shape against a LISTENING HTTPServer runtime over the simulated network: raw HTTP/1.1 clients, only hot fields change, no dial may be refused and no connection may end without a response; 40% of the rt scenarios contain a listen-failure history: the first bind or the bind of a restart-requiring update (keepAliveTimeout) fails with address-in-use, 1-3 hot updates arrive while the runtime is in state failed, the port becomes free, the 10 s checkFailed ticker or a further restart-requiring update brings the server back, clients retry refused dials every 1.3 s and the requests answered after the recovery are judged by the same generation window). mux: chain of 2-5 HTTPServer specs derived from one another by 0-3 edits (rules, rewrite targets, xForwardedFor, body limits, IP filters at three levels, cache size, identical re-apply), " +
+		Rule: "a scenario is one of four modes (mux 35%, pipe 35%, tc 15%, rt 15%; rt = the mux scenario shape against a LISTENING HTTPServer runtime over the simulated network: raw HTTP/1.1 clients, only hot fields change, no dial may be refused and no connection may end without a response; 40% of the rt scenarios contain a listen-failure history: the first bind or the bind of a restart-requiring update (keepAliveTimeout) fails with address-in-use, 1-3 hot updates arrive while the runtime is in state failed, the port becomes free, the 10 s checkFailed ticker or a further restart-requiring update brings the server back, clients retry refused dials every 1.3 s and the requests answered after the recovery are judged by the same generation window; half of the rt clients are keep-alive clients that send consecutive requests from one address on one connection across the updates (a kept connection found closed is retried on a fresh one), maxConnections changes as a further hot field in 40% of the scenarios). mux: chain of 2-5 HTTPServer specs derived from one another by 0-3 edits (rules, rewrite targets, xForwardedFor, body limits, IP filters at three levels, cache size, identical re-apply), " +
 			"one updater task calling mux.reload, 1-4 client tasks with 4-24 requests whose backend handlers park; pipe: one filter kind under test (RateLimiter, Proxy, Mock, Request/ResponseAdaptor, Validator, Fallback, CORSAdaptor, Request/ResponseBuilder, HeaderToJSON, CertExtractor) in a real Pipeline, " +
 			"2-4 generations (Init, then Inherit which closes the previous one; 15% of the updates keep the NAME of the filter under test and change its KIND), requests park before / inside / after the filter under test while the updater inherits; " +
 			"65% of the Proxy scenarios are resilience-observable (Proxy variants 6/7: main pool and optional candidate pool, each with retry policy maxAttempts 2-3 / none, circuit breaker none / ample / tight, timeout 1h / none, failureCodes [503] / none, 3 server sets; updates keep / add / remove / change each of them or change something else while they stay; " +
 			"75% of the requests carry a backend script: the first 1-3 attempts fail by connection error, status 503 or by answering after 2h), judged by a reference model of the held generation's spec (attempt count, final status, servers, short-circuiting); tc: real TrafficController with a real HTTPServer object and Pipelines A,B,C, two updater tasks issuing create/apply/update/delete (and identical re-apply) on disjoint names, requests and GetHandler lookups; " +
+			"pipe also: 15% of the generations have no flow section (the filter order is the flow), jumps go to the post filter or to END, updates add / remove the flow section; tc also: in half of the scenarios a third updater creates / applies / updates / deletes pipelines of the SAME names pa, pb in a second namespace, Cleans that namespace and polls TrafficController.Status; UpdateTrafficGate besides ApplyTrafficGate; the final state of every name in both namespaces is compared with the reference; " +
 			"non-trivial = a request overlapped an update that changes its answer, or ran on a generation that had already been inherited from / closed, or started after an update that changes its answer; distinct = distinct (specs, ordered request/answer history)",
 		Real: []string{"pkg/object/httpserver mux (newMux, reload, ServeHTTP, search, cache), runtime + HTTPServer object (mode tc)", "pkg/object/pipeline Pipeline (Init, Inherit, Close, Handle)", "pkg/object/trafficcontroller (Create/Apply/Update/Delete Pipeline and TrafficGate, Namespace.GetHandler)",
 			"pkg/filters: ratelimiter, proxy (pools, load balancers, memory cache, resilience wrappers), mock, requestadaptor, responseadaptor, validator, fallback, corsadaptor, builder, headertojson, certextractor", "pkg/supervisor Spec / ObjectEntity", "pkg/util/ratelimiter, pkg/util/ipfilter, pkg/protocols/httpprot, pkg/context"},
@@ -1069,6 +1075,8 @@ func TestVerifC11(t *testing.T) {
 				"the pool timeout (1h) and a slow attempt (2h) are far apart because stall decisions may add up to 20 min of virtual time anywhere; a tight breaker (window 2, 100%, open 1000h) is judged exactly only while the calls of its (generation, pool) are strictly sequential and the previous generation had no tight breaker on that pool (the statement does not say whether breaker state survives an update), otherwise a 5xx without backend attempt and the normal answer are both accepted; twins get the ample breaker",
 			"mode rt, listen failures: 'applied' for a hot update that arrives while the server is failed means the runtime's fsm has processed the reload event (runtime.spec is the new spec); from the start of a restart-requiring update or of the failing Init until the harness has seen the final net/http server accept a probe connection a refused dial or a connection lost in the accept queue is not judged (the client tries again); recovery is expected within 84 s of virtual time after the port is free (checkFailed period 10 s)",
 			"mode tc: 'applied' for an HTTPServer update means its runtime has processed the reload event (observed by the updater polling the mux instance); a request that overlaps create/delete of its pipeline may get 503 or an answer",
+			"mode rt, keep-alive: a request sent on a kept connection that ends before any response byte and before its handler was entered is sent again on a fresh connection and only that attempt is judged (the server may close an idle connection at any time: idle timer during a stall, restart)",
+			"mode tc: nothing is asserted about the content of TrafficController.Status, only that the call returns; a panic in it is reported as C11.tc.panic",
 			"not generated: tracing, globalFilter, HTTPS, mirror pools, service discovery, filters that need a cluster / broker / wasm runtime / remote endpoint (HeaderLookup, Kafka, MQTT kinds, WasmHost, RemoteFilter), Validator basicAuth (real files)",
 		},
 	})
